@@ -84,6 +84,7 @@ const regex_t *verif_regex_obj[VERIF_MAX_REGEX];
 int verif_regex_result[VERIF_MAX_REGEX];      /* 0 = match, anything else = no match */
 const char *verif_regexec_subject;            /* subject of the last regexec call */
 const regex_t *verif_regexec_regex;
+int verif_regex_default, verif_regex_default_set;   /* result for regex objects that are not registered */
 unsigned verif_regexec_calls;
 unsigned verif_regcomp_calls;
 unsigned verif_regfree_calls;
@@ -99,6 +100,9 @@ static int verif_regexec(const regex_t *preg, const char *string, size_t nmatch,
 	if (verif_regex_obj[1] == preg) { return verif_regex_result[1]; }
 	if (verif_regex_obj[2] == preg) { return verif_regex_result[2]; }
 	if (verif_regex_obj[3] == preg) { return verif_regex_result[3]; }
+	if (verif_regex_default_set) {
+		return verif_regex_default;      /* unregistered regex objects (compiled inside the code under test) */
+	}
 	{
 		VERIF_ND(int, nd_regexec_rc);
 		return nd_regexec_rc;
@@ -246,9 +250,13 @@ static int verif_strcmp(const char *a, const char *b)
 const char *verif_strstr_hay, *verif_strstr_needle;
 unsigned verif_strstr_calls;
 int verif_strstr_found;       /* result of the last strstr call */
+int verif_strstr_mode;        /* -1: any result per call; 0: never found; 1: always found */
 static char *verif_strstr(const char *hay, const char *needle)
 {
 	VERIF_ND(uint8_t, nd_strstr_found);
+	if (verif_strstr_mode >= 0) {
+		nd_strstr_found = (uint8_t)verif_strstr_mode;      /* harness fixed the answer for all calls */
+	}
 	verif_strstr_calls++;
 	verif_strstr_hay = hay;
 	verif_strstr_needle = needle;
@@ -376,7 +384,8 @@ static void verif_log_os_reset(void)
 	verif_sem_value = 0; verif_sem_counted = NULL; verif_sem_posts = 0; verif_sem_waits = 0;
 	verif_sem_destroys = 0; verif_sem_inits = 0; verif_sem_destroyed = 0;
 	verif_thread_creates = 0; verif_thread_joins = 0; verif_thread_create_rc = 0;
-	verif_strstr_hay = NULL; verif_strstr_needle = NULL; verif_strstr_calls = 0; verif_strstr_found = 0;
+	verif_strstr_hay = NULL; verif_strstr_needle = NULL; verif_strstr_calls = 0; verif_strstr_found = 0; verif_strstr_mode = -1;
+	verif_regex_default = 1; verif_regex_default_set = 0;
 	verif_msg_buf = NULL; verif_msg_len = 0; verif_xc_pos = -1;
 	verif_vsnprintf_calls = 0;
 }
